@@ -69,7 +69,7 @@ Proof. unfold upd. intros H. destruct (Pos.eqb_spec y x); [contradiction|reflexi
 
 Lemma halloc_hle h c : hle h (fst (halloc h c)).
 Proof.
-  unfold halloc; simpl. split; [lia|]. intros x Hx. apply upd_other. lia.
+  unfold hle, halloc; simpl. split; [lia|]. intros x Hx. apply upd_other. lia.
 Qed.
 
 Definition mono {A} (m : M A) : Prop := forall st st' r, m st = (st', r) -> le st st'.
@@ -92,7 +92,7 @@ Proof.
 Qed.
 Lemma mono_alloc c : mono (alloc c).
 Proof.
-  intros st st' r H. unfold alloc in H. simpl in H. inversion H; subst. unfold le; simpl.
+  intros st st' r H. unfold alloc in H. simpl in H. inversion H; subst. unfold le, hle; simpl.
   repeat split; try apply incl_refl; try (intros o Ho; exact Ho).
   - lia.
   - intros x Hx. apply upd_other. lia.
@@ -107,7 +107,7 @@ Lemma mono_vmap_set v c : mono (vmap_set v c).
 Proof.
   intros st st' r H. inversion H; subst. unfold le; simpl.
   repeat split; try apply hle_refl; try apply incl_refl.
-  intros o Ho. destruct (Pos.eqb o v); [discriminate|exact Ho].
+  intros o Ho. simpl. destruct (Pos.eqb o v); [discriminate|exact Ho].
 Qed.
 Lemma mono_pass_add v : mono (pass_add v).
 Proof.
@@ -168,12 +168,7 @@ Proof. unfold clone_output. apply mono_bind; [apply mono_copy_value|intros c]. m
 Lemma mono_finish_node n ins outs ats atn mp me : mono (finish_node n ins outs ats atn mp me).
 Proof.
   intros st st' r H. unfold finish_node in H.
-  revert H. generalize (vmap st) at 1 3. intros m H.
-  revert st st' r H. fold (mono (_ <- keep_add (filter (unmapped m) (flat_map dev_ids (n_dev n))) ;;
-       alloc (CNode (Nod (n_name n) (n_domain n) (n_op n) (n_overload n) (n_version n) ins outs
-                         (dict_of N.eqb (combine atn ats)) (n_doc n) mp me
-                         (map (remap_dev m) (n_dev n)))))).
-  mono_tac.
+  exact (mono_bind _ _ (mono_keep_add _) (fun _ => mono_alloc _) st st' r H).
 Qed.
 
 Section Rec.
